@@ -280,6 +280,36 @@ def run_shadow_batch(h, trees, env):
     return res
 
 
+def run_stop_case(h, tree, rng):
+    """run the tree up to a return that goes through a trampoline, then tell libmcount that tracing is being
+    finished (STOP) and let that function return -> dict or None if the tree has no such return"""
+    ops, owner = full(tree)
+    # candidates: returns of activations whose slot carries a -pg/PLT frame (own hook or a tail callee's)
+    def hooked_slot(n):
+        return n.h in "MP" or any(hooked_slot(t) for t in n.tails)
+    cands = [i for i, (o, n) in enumerate(zip(ops, owner)) if o[0] == "R" and hooked_slot(n)]
+    if not cands:
+        return None
+    i = rng.choice(cands)
+    lines = harness_lines(ops[:i], owner[:i]) + ["STOP", "R %d" % ops[i][1]]
+    rc, out, err = h.run(lines, 2, {})
+    if rc != 0 or len(out) != len(lines):
+        return {"crashed": True, "tree": tree, "stderr": err[-300:], "cut": i}
+    for j, line in enumerate(out[:i]):
+        k = line.split()
+        if k[0] == "E" and int(k[1]) != 0:
+            owner[j].h = "N"
+    k = out[-1].partition(" | ")[0].split()
+    ops2, _ = full(tree)
+    return {"crashed": False, "tree": tree, "ops": ops2[:i], "slot": ops[i][1], "cut": i,
+            "obs": "URet %d (%s)" % (int(k[1]), coq_word(k[2])), "expect": owner[i].ra, "raw": out[-1]}
+
+
+def coq_stop_case(c):
+    return "{| st_ops := [%s]; st_slot := %d; st_obs := %s; st_expect := %d |}" % (
+        "; ".join(coq_op(o) for o in c["ops"]), c["slot"], c["obs"], c["expect"])
+
+
 def coq_shadow_case(c):
     obs = "; ".join("(%s, %d, [%s])" % (u, idx, "; ".join(coq_word(w) for w in ws)) for (u, idx, ws) in c["obs"])
     return ("{| sc_tree := %s;\n   sc_ops := [%s];\n   sc_obs := [%s];\n   sc_errno := [%s];\n   sc_nslots := %d |}"
@@ -349,7 +379,7 @@ Local Open Scope Z_scope.
 """
 
 
-def evaluate_chunk(ctx, scases, xcases, name, hcases=()):
+def evaluate_chunk(ctx, scases, xcases, name, hcases=(), tcases=()):
     defs = "Local Open Scope nat_scope.\nDefinition scases : list shadow_case := [\n%s\n].\nLocal Open Scope Z_scope.\n" % ";\n".join(coq_shadow_case(c) for c in scases)
     defs += "Definition xcases : list xmm_case := [\n%s\n].\n" % ";\n".join(
         "{| xc_before := %s; xc_clobber := %s; xc_after := %s |}" % (coq_pairs(b), coq_pairs(c), coq_pairs(a))
@@ -357,7 +387,11 @@ def evaluate_chunk(ctx, scases, xcases, name, hcases=()):
     defs += "Definition hcases : list hook_xmm_case := [\n%s\n].\n" % ";\n".join(
         '{| hx_hook := "%s"%%string; hx_before := %s; hx_after := %s |}' % (hk, coq_pairs(b), coq_pairs(a))
         for (hk, b, a, _) in hcases)
+    defs += "Local Open Scope nat_scope.\nDefinition tcases : list stop_case := [\n%s\n].\nLocal Open Scope Z_scope.\n" % ";\n".join(
+        coq_stop_case(c) for c in tcases)
     res = coq.run_cases(ctx, name, PRE, defs, [
+        ("t_mismatch", "bad_indices stop_agrees tcases 0"),
+        ("t_violations", "bad_indices stop_ok tcases 0"),
         ("s_mismatch", "bad_indices shadow_agrees scases 0"),
         ("s_violations", "bad_indices shadow_ok scases 0"),
         ("x_mismatch", "bad_indices xmm_agrees xcases 0"),
@@ -370,17 +404,18 @@ def evaluate_chunk(ctx, scases, xcases, name, hcases=()):
     return {k: coq.parse_nat_list(v) for k, v in res.items()}
 
 
-def evaluate(ctx, scases, xcases, name="cases", chunk=50, hcases=()):
+def evaluate(ctx, scases, xcases, name="cases", chunk=50, hcases=(), tcases=()):
     """model and checker evaluated by vm_compute inside Coq; chunks run in parallel coqc processes"""
     jobs = []
     for k, j in enumerate(range(0, max(len(scases), 1), chunk)):
         jobs.append((j, scases[j:j + chunk], xcases if k == 0 else []))
     with concurrent.futures.ThreadPoolExecutor(max_workers=6) as ex:
         rs = list(ex.map(lambda jb: evaluate_chunk(ctx, jb[1], jb[2], "%s_%d" % (name, jb[0]),
-                                                   hcases if jb[0] == 0 else ()), jobs))
+                                                   hcases if jb[0] == 0 else (), tcases if jb[0] == 0 else ()), jobs))
     if any(r is None for r in rs):
         return None
-    res = {"s_mismatch": [], "s_violations": [], "x_mismatch": [], "x_violations": [], "h_mismatch": [], "h_violations": []}
+    res = {"s_mismatch": [], "s_violations": [], "x_mismatch": [], "x_violations": [], "h_mismatch": [], "h_violations": [],
+           "t_mismatch": [], "t_violations": []}
     for (j, _, _), r in zip(jobs, rs):
         res["s_mismatch"] += [j + i for i in r["s_mismatch"]]
         res["s_violations"] += [j + i for i in r["s_violations"]]
@@ -388,6 +423,8 @@ def evaluate(ctx, scases, xcases, name="cases", chunk=50, hcases=()):
         res["x_violations"] += r["x_violations"]
         res["h_mismatch"] += r["h_mismatch"]
         res["h_violations"] += r["h_violations"]
+        res["t_mismatch"] += r["t_mismatch"]
+        res["t_violations"] += r["t_violations"]
     return res
 
 
@@ -461,6 +498,7 @@ def option_sets(scratch):
         "script": ["-S", spy],
         "recover": ["-T", "f2@recover", "-T", "f5@recover"],
         "libargs": ["-A", "strlen@arg1/s", "-A", "snprintf@arg3/s", "-R", "strtol@retval"],
+        "finish": ["-T", "finish_now@finish"],
         "small-buffer": ["-b", "4k"],
         "read-trigger": ["-T", "fd@read=proc/statm", "-T", "fc@read=proc/statm", "-T", "f1@read=proc/statm", "-T", "f3@read=page-fault"],
         "args-g": ["-A", "g@arg1/s", "-A", "q@arg1/s"],
@@ -485,7 +523,7 @@ def compile_prog(workdir, name, src, mode, opt):
 
 def run_native(exe, outfile):
     env = dict(os.environ, VERIF_OUT=outfile)
-    p = subprocess.run([exe], capture_output=True, timeout=60, env=env)
+    p = subprocess.run([exe], capture_output=True, timeout=60, env=env, cwd=os.path.dirname(exe))
     return p.returncode, p.stdout, slurp(outfile)
 
 
@@ -507,7 +545,7 @@ def run_traced(objdir, exe, mode, opts, datadir, live=False):
         base += ["-d", datadir]
     cmd = base + G.MODES[mode][1] + opts + [exe]
     outfile = datadir + ".out"
-    p = subprocess.run(cmd, capture_output=True, timeout=90, env=dict(os.environ, VERIF_OUT=outfile))
+    p = subprocess.run(cmd, capture_output=True, timeout=90, env=dict(os.environ, VERIF_OUT=outfile), cwd=os.path.dirname(exe))
     status = None
     if not live:
         q = subprocess.run([uft, "info", "--no-pager", "-d", datadir], capture_output=True, text=True, timeout=30)
@@ -523,7 +561,7 @@ def digest_lines(b):
     return b"\n".join(l for l in (b or b"").splitlines() if l.startswith(b"DIGEST "))
 
 
-def e2e_compare(nat, traced, live):
+def e2e_compare(nat, traced, live, status_unreliable=False):
     """the program's own report (private file) must be identical; its DIGEST lines on the shared stdout too
     (the tracer may add its own messages there); exit status as recorded by uftrace = native"""
     nrc, nout, nfile = nat
@@ -536,7 +574,7 @@ def e2e_compare(nat, traced, live):
                         % ((tfile or b"")[-80:], (nfile or b"")[-80:]))
     if digest_lines(tout) != digest_lines(nout):
         problems.append("DIGEST lines on stdout differ from the native run")
-    if not live:
+    if not live and not status_unreliable:      # after a finish trigger the recorder may leave before the program does
         if status != nrc:
             problems.append("exit status of the traced program is %r, native %r" % (status, nrc))
         if (trc != 0) != (nrc != 0) and trc != 124:
@@ -550,7 +588,7 @@ def e2e_plan(ctx):
     plan = []
     nprog = ctx.n(10, 60)
     per = ctx.n(10, 24)
-    osets = [o for o in option_sets(ctx.scratch) if not o.startswith("args-")]
+    osets = [o for o in option_sets(ctx.scratch) if not o.startswith("args-") and o != "finish"]
     for pi in range(nprog):
         threads = 4 if pi % 3 == 1 else 1
         classes = None if pi % 2 == 0 else rng.sample(list(G.CLASSES), 3) + ["vector"]
@@ -560,7 +598,7 @@ def e2e_plan(ctx):
         # the vector/script and vector/args combinations are the class of the fixed defect: always present
         combos = [("pg", "-O2", "script", False), ("fentry", "-O2", "args", False)] if pi < 2 else []
         while len(combos) < per:
-            mode = rng.choice(list(G.MODES))
+            mode = rng.choice([m for m in G.MODES if m != "fentry-nested"])
             oset = rng.choice(osets)
             if mode == "cyg" and oset in ("args", "auto-args", "recover"):
                 oset = "plain"
@@ -585,12 +623,22 @@ def e2e(ctx, objdir):
     sources = {}
     # corpus first: minimised witnesses of defects this check found (all fixed in /repo): ordinary cases
     cdir = os.path.join(VERIF, "corpus", "C01")
-    for ci, fn in enumerate(sorted(os.listdir(cdir)) if os.path.isdir(cdir) else []):
+    for ci, fn in enumerate(sorted(f for f in os.listdir(cdir) if f.endswith(".json")) if os.path.isdir(cdir) else []):
         c = json.load(open(os.path.join(cdir, fn)))
         key = "c%d" % ci
         sources[key] = c["source"]
         jobs.append((key, {"corpus": c["name"], "seed": c["name"], "threads": 1}, c["source"],
                      {"sigs": [c["name"]]}, c["mode"], c["opt"], c["optset"], False))
+    # finish-trigger scenarios: another thread ends tracing while workers sit in (tail-)called functions
+    import random
+    for fi in range(ctx.n(6, 40)):
+        fseed = ctx.rng.getrandbits(32)
+        fsrc, fdesc = G.gen_finish_program(random.Random(fseed))
+        key = "f%d" % fi
+        sources[key] = fsrc
+        mode = ctx.rng.choice(["pg", "pg", "fentry", "patchable", "cyg"])
+        jobs.append((key, {"finish": fdesc, "seed": ("finish", fseed), "threads": fdesc["nworkers"] + 1}, fsrc,
+                     {"sigs": ["finish-scenario"]}, mode, "-O2", ctx.rng.choice(["finish", "finish", "plain"]), False))
     for pi, (params, combos) in enumerate(plan):
         src, desc = make_prog(params)
         sources["p%d" % pi] = src
@@ -613,12 +661,16 @@ def e2e(ctx, objdir):
     nbad = 0
     for job, nat, tr in results:
         pi, params, src, desc, mode, opt, oset, live = job
-        problems = e2e_compare(nat, tr, live)
+        problems = e2e_compare(nat, tr, live, status_unreliable=(oset == "finish"))
         tags = ["e2e:mode=" + mode, "e2e:" + opt, "e2e:opts=" + oset, "e2e:threads=%d" % params["threads"]]
         if live:
             tags.append("e2e:live")
         if "corpus" in params:
             tags.append("corpus:" + params["corpus"])
+        if "finish" in params:
+            fd = params["finish"]
+            tags += ["finish:" + ("tail" if fd["tail"] else "call") + "-chain=%d" % fd["chain"],
+                     "finish:fired-by-" + ("worker" if fd["by_worker"] else "main")]
         for s in desc["sigs"]:
             for cl, ts in G.CLASSES.items():
                 if any(t in s for t in ts):
@@ -627,6 +679,8 @@ def e2e(ctx, objdir):
                 tags.append("e2e:class=variadic")
             if s.count(",") >= 6:
                 tags.append("e2e:stack-args")
+        if desc.get("nested") and mode != "fentry":
+            tags.append("e2e:nested-function")
         ctx.case(key=("e2e", params["seed"], mode, opt, oset, live), tags=sorted(set(tags)),
                  sample={"e2e": {"mode": mode, "opt": opt, "options": osets[oset], "sigs": desc["sigs"][:4],
                                  "native_exit": nat[0], "digest": nat[1].decode(errors="replace").splitlines()[-1:]}}
@@ -639,7 +693,24 @@ def e2e(ctx, objdir):
                            "traced": {"uftrace_rc": tr[0], "stdout": tr[1].decode(errors="replace")[-2000:],
                                       "stderr": tr[2][-1500:], "exit": tr[3]},
                            "source": src}, True)
+    known_findings(ctx, objdir, work, osets)
     return len(results)
+
+
+def known_findings(ctx, objdir, work, osets):
+    """dedicated witnesses of listed defects (corpus/C01/known/*.json); the generators stay out of their class"""
+    kdir = os.path.join(VERIF, "corpus", "C01", "known")
+    for fn in sorted(os.listdir(kdir)) if os.path.isdir(kdir) else []:
+        c = json.load(open(os.path.join(kdir, fn)))
+        exe = compile_prog(work, "k_" + c["name"], c["source"], c["mode"], c["opt"])
+        dd = os.path.join(work, "k." + c["name"])
+        nat = run_native(exe, dd + ".nat")
+        tr = run_traced(objdir, exe, c["mode"], osets[c["optset"]], dd, False)
+        problems = e2e_compare(nat, tr, False)
+        ctx.case(key=("known", c["name"]), tags=["known:" + c["key"]], validated=True)
+        ctx.known_finding(c["key"], c["what"] + " -> " + ("; ".join(problems) or "no longer reproduces"), bool(problems),
+                          {"kind": "e2e", "mode": c["mode"], "opt": c["opt"], "optset": c["optset"], "source": c["source"],
+                           "native": {"exit": nat[0]}, "traced": {"exit": tr[3], "stderr": tr[2][-500:]}})
 
 
 # ================================================================ entry points
@@ -672,7 +743,9 @@ def common_meta(ctx):
         "with an xmm-clobbering libc stand-in); xmm8-15, AVX upper halves and x87 are NOT protected on paths "
         "that reach libc; libmcount's own code is SSE-free (-mgeneral-regs-only, monitored by objdump)",
         "mcount_find_code (called by __dentry__ without a wrapper) leaves all xmm registers alone",
-        "-pg code keeps the parent's return slot at 8(%rbp) above the mcount call's own return address",
+        "-pg code keeps the parent's return slot at 8(%rbp) above the mcount call's own return address; at "
+        "`call __fentry__` the parent's return slot is at 8(%rsp) (false for GNU C nested functions, which push "
+        "%r10 first: known finding nested-function-mfentry, dedicated witness)",
         "return addresses of the program are never the address of mcount_return/dynamic_return/plthook_return",
         "no exception/longjmp/signal unwinding (C11), no fork/exec inside the hooks, mtdp->in_exception = false",
         "dynamic linker lazy binding, thread schedules, compiler code generation: monitored end-to-end only",
@@ -733,10 +806,24 @@ def run(ctx):
             ctx.case(key=("hookxmm", hc[0], tuple(hc[1])), tags=["hookxmm:" + hc[0]],
                      sample={"hook_xmm": {"hook": hc[0], "before0": ["%x" % w for w in hc[1][0]],
                                           "after0": ["%x" % w for w in hc[2][0]]}} if i == 0 and hc[0] == "mcount_exit" else None)
-    ctx.log("ran %d call trees, %d xmm-pair cases and %d hook-call xmm cases on libmcount" % (len(scases), len(xcases), len(hcases)))
-    res = evaluate(ctx, [c for c in scases if not c["crashed"]], xcases, hcases=hcases)
+    tcases = []
+    for i in range(ctx.n(30, 300)):
+        tree = gen_tree(ctx.rng, ["tail", "pg", "plttail", "plt", "deep"][i % 5], maxd=4, budget=10)
+        c = run_stop_case(h, tree, ctx.rng)
+        if c is None:
+            continue
+        if c["crashed"]:
+            ctx.violation("libmcount crashed when a function returned after tracing was told to finish",
+                          {"kind": "stop", "tree": json_tree(tree), "cut": c["cut"], "stderr": c["stderr"]}, True)
+            continue
+        tcases.append(c)
+        ctx.case(key=("stop", coq_tree(tree), c["cut"]), tags=["finish:in-process"] +
+                 (["finish:tail-called-returns"] if "URet 1 (Real" in c["obs"] and any(o[0] == "E" and o[2] == c["slot"] for o in c["ops"][-1:]) else []))
+    ctx.log("ran %d call trees, %d xmm-pair, %d hook-call xmm and %d finish cases on libmcount"
+            % (len(scases), len(xcases), len(hcases), len(tcases)))
+    res = evaluate(ctx, [c for c in scases if not c["crashed"]], xcases, hcases=hcases, tcases=tcases)
     ctx.log("model evaluated in Coq:", res)
-    verdict(ctx, [c for c in scases if not c["crashed"]], xcases, res, hcases)
+    verdict(ctx, [c for c in scases if not c["crashed"]], xcases, res, hcases, tcases)
     # ---- monitors
     objdump_monitor(ctx, objdir)
     ctx.log("objdump monitor done")
@@ -747,9 +834,18 @@ def run(ctx):
     ctx.extra["xmm_cases"] = len(xcases)
 
 
-def verdict(ctx, scases, xcases, res, hcases=()):
+def verdict(ctx, scases, xcases, res, hcases=(), tcases=()):
     if res is None:
         return
+    for i in res.get("t_violations", [])[:3]:
+        c = tcases[i]
+        ctx.violation("C01 violated: after tracing was told to finish, a traced function did not return to its real "
+                      "caller (exit hook handed back %s, real return address id %d)" % (c["obs"], c["expect"]),
+                      {"kind": "stop", "tree": json_tree(c["tree"]), "cut": c["cut"], "observed": c["raw"]}, True)
+    if res.get("t_mismatch") and not res.get("t_violations"):
+        c = tcases[res["t_mismatch"][0]]
+        ctx.violation("finish model (Shadow.exit_stop) and libmcount disagree on %d cases" % len(res["t_mismatch"]),
+                      {"kind": "stop", "tree": json_tree(c["tree"]), "cut": c["cut"], "observed": c["raw"]}, False)
     for i in res.get("h_violations", [])[:3]:
         hk, b, a, _ = hcases[i]
         ctx.violation("C01 violated: %s does not give back xmm0-7 when a libc function it reaches uses the xmm "
@@ -813,6 +909,23 @@ def replay(ctx, obj):
         res = evaluate(ctx, [], [(before, clobber, after)], name="replay")
         ctx.log("replayed xmm case:", res)
         verdict(ctx, [], [(before, clobber, after)], res)
+    elif kind == "stop":
+        import random
+        h = Harness(ctx, objdir)
+        tree = tree_of_json(obj["tree"])
+        ops, owner = full(tree)
+        class _R:                      # re-cut at the recorded operation
+            def choice(self, l):
+                return obj["cut"] if obj["cut"] in l else l[0]
+        c = run_stop_case(h, tree, _R())
+        ctx.case(key="replay", sample={"observed": c and c.get("raw")})
+        if c and not c["crashed"]:
+            res = evaluate(ctx, [], [], name="replay", tcases=[c])
+            ctx.log("replayed finish case:", res)
+            verdict(ctx, [], [], res, (), [c])
+        elif c:
+            ctx.violation("libmcount crashed when a function returned after tracing was told to finish",
+                          {"kind": "stop", "tree": obj["tree"], "cut": obj["cut"], "stderr": c["stderr"]}, True)
     elif kind == "hookxmm":
         import random
         h = Harness(ctx, objdir)
@@ -829,7 +942,7 @@ def replay(ctx, obj):
         nat = run_native(exe, os.path.join(work, "nat.out"))
         tr = run_traced(objdir, exe, obj["mode"], option_sets(ctx.scratch)[obj["optset"]], os.path.join(work, "d"),
                         obj.get("live", False))
-        problems = e2e_compare(nat, tr, obj.get("live", False))
+        problems = e2e_compare(nat, tr, obj.get("live", False), status_unreliable=(obj["optset"] == "finish"))
         ctx.case(key="replay", sample={"native_exit": nat[0], "traced_exit": tr[3], "problems": problems})
         ctx.log("replayed e2e case:", problems or "identical")
         if problems:
